@@ -277,3 +277,24 @@ Open Scope Qc_scope.
 Theorem C03_laws_inhabited : Laws K8Ops /\ kmul K8Ops (mk8 0 1 0 0) (mk8 0 0 0 (-(1))) = k1 K8Ops.
 Proof. split; [exact K8Laws | vm_compute; reflexivity]. Qed.
 Print Assumptions C03_laws_inhabited.
+
+(* closed-form families are tied to the eigen families by the identities their docstrings state *)
+From VF Require Import Gates.DocIdentities.
+Theorem C03_fsim_is_iswap_cz : forall K (O : Ops K), Laws O -> forall u uc v vc q qc : K,
+  kmul O u uc = k1 O -> kmul O q q = vc ->
+  spec_FSim O u uc v vc = mmul O (spec_ISwapPow O uc u (k1 O)) (spec_CZPow O q qc (k1 O)).
+Proof. exact @fsim_is_iswap_cz. Qed.
+Print Assumptions C03_fsim_is_iswap_cz.
+Theorem C03_phased_xz_is_product : forall K (O : Ops K), Laws O -> forall fa fac fz fzc r rc : K,
+  kmul O fa fac = k1 O -> kmul O r rc = k1 O ->
+  spec_PhasedXZ O fa fac fz fzc r rc
+  = mmul O (mdiag O [k1 O; fz]) (mmul O (mdiag O [k1 O; fa]) (mmul O (spec_XPow O r rc (k1 O)) (mdiag O [k1 O; fac]))).
+Proof. exact @phased_xz_is_product. Qed.
+Print Assumptions C03_phased_xz_is_product.
+Theorem C03_phased_iswap_is_conjugated_iswap : forall K (O : Ops K), Laws O -> forall e ec r rc g : K,
+  kmul O e ec = k1 O ->
+  spec_PhasedISwap O (kmul O e e) (kmul O ec ec) r rc g
+  = mmul O (kron O (mdiag O [k1 O; ec]) (mdiag O [k1 O; e]))
+           (mmul O (spec_ISwapPow O r rc g) (kron O (mdiag O [k1 O; e]) (mdiag O [k1 O; ec]))).
+Proof. exact @phased_iswap_is_conjugated_iswap. Qed.
+Print Assumptions C03_phased_iswap_is_conjugated_iswap.
